@@ -126,8 +126,12 @@ class Strategy:
         defaults = dict(zip(params[len(params) - len(a.defaults):] if a.defaults else [], a.defaults))
         for p in params[3:]:
             d = defaults.get(p)
-            if isinstance(d, ast.Lambda) or (p.endswith('_supplier')):
+            if isinstance(d, ast.Lambda):
                 continue      # callable defaults keep their default
+            if p.endswith('_supplier'):
+                if isinstance(d, ast.Constant) and d.value is None:
+                    args[p] = Term('param', (Const(p),), kind='callable')   # a user-supplied sampling-function factory
+                continue
             if isinstance(d, ast.Constant) and d.value is None and not self.a_given:
                 args[p] = Const(None)
                 continue
